@@ -638,6 +638,16 @@ def load_vectors(chk, prop, tier, kinds):
 
 
 def main(prop, tier, seed, replay_file):
+    if replay_file:
+        with open(replay_file) as f:
+            rp = json.load(f)
+        if rp.get("family") == "negotiation":
+            from . import check_calls
+            check_calls.replay(rp)
+        print(json.dumps({k: rp[k] for k in rp if k != "trace"}, indent=1, default=repr)[:4000])
+        print("(vector checks are deterministic: re-run ./check %s to reproduce)" % prop)
+        raise SystemExit(1)
+
     def body(chk):
         rng = random.Random(seed)
         thorough = tier == "thorough"
@@ -650,11 +660,8 @@ def main(prop, tier, seed, replay_file):
             n = check_requests(chk, vecs)
             chk.extra["request_vectors_compared"] = n
             chk.sample({"request": repr(vecs[len(vecs) // 2]["x"]), "bytes": vecs[len(vecs) // 2]["bytes"].hex()})
-            try:
-                from . import check_client
-                check_client.negotiation(chk, tier, seed)
-            except (ImportError, AttributeError):
-                chk.notes.append("version negotiation (last sentence of C04) is checked by the client family once built")
+            from . import check_calls
+            check_calls.negotiation(chk, tier, seed)
         elif prop == "C05":
             wd, vecs = load_vectors(chk, prop, tier, ["resp", "msgset", "wrapset"])
             n1 = check_responses(chk, vecs)
